@@ -495,6 +495,7 @@ class CExecPyObj(CExecL3):
             st.path.append(rid >= 0)          # 0: NULL (an exception was raised by CPython's comparison)
             e2 = self.fresh("err_after_richcmp")
             st.path.append(z3.Implies(rid >= 1, e2 == st.err))
+            st.path.append(z3.Implies(rid == 0, e2 != 0))        # NULL comes with an exception set
             st.err = e2
             self.assumptions.add("PyObject_RichCompare(a, b, op) is CPython's own comparison (its result object, or NULL with an exception)")
             return Ptr(ty, "pyobj", rid)
@@ -504,6 +505,7 @@ class CExecPyObj(CExecL3):
             st.path.append(z3.And(r >= -1, r <= 1, r == truth_of(x), z3.Implies(x == 0, r == -1)))
             e2 = self.fresh("err_after_istrue")
             st.path.append(z3.Implies(r >= 0, e2 == st.err))
+            st.path.append(z3.Implies(r < 0, e2 != 0))           # -1 comes with an exception set
             st.err = e2
             self.assumptions.add("__Pyx_PyObject_IsTrueAndDecref(x) is PyObject_IsTrue(x) (-1 for NULL / on error)")
             return CV(ty, r)
@@ -513,6 +515,10 @@ class CExecPyObj(CExecL3):
             r = self.fresh("richcmpbool")
             st.path.append(z3.And(r >= -1, r <= 1))
             st.path.append(generic(z3.IntVal(OPCODES["richcmp"]), a, b, opc.t, r))
+            if name == "PyObject_RichCompareBool":
+                # the C-API function (unlike the operators == and !=) answers for IDENTICAL objects without calling __eq__ / __ne__
+                st.path.append(z3.Implies(a == b, z3.And(z3.Implies(opc.t == 2, r == 1), z3.Implies(opc.t == 3, r == 0))))
+                self.assumptions.add("PyObject_RichCompareBool(a, a, Py_EQ / Py_NE) is 1 / 0 without a call (CPython's identity shortcut)")
             # may raise: the error indicator after the call is CPython's business
             e2 = self.fresh("err_after_richcmp")
             st.path.append(z3.Implies(r >= 0, e2 == st.err))
